@@ -683,6 +683,121 @@ u_dec(uint64_t idx, void *arg)
     *vh_ncases += n;
 }
 
+/* a frame tunnelled through a second framed link: the outer encoder writes into a sink whose driver wraps every
+ * chunk it is handed into a frame of its own (inner kind: one octet or varint) on a lower sink. Unwrapping the
+ * lower stream must give back the outer frame octet for octet - the outer call's prefix and payload must still be
+ * what they were when the driver returns. */
+struct tunnel {
+    Sink *lower;
+    int inner_kind;
+    unsigned calls;
+};
+
+static ssize_t
+tunnel_chunk(void *drv, const void *p, size_t n)
+{
+    struct tunnel *t = drv;
+    t->calls++;
+    if (n > 200)
+        n = 200; /* a short write: the rest comes again */
+    ssize_t rc = LP(memory_to_sink, t->inner_kind, t->lower, (void *)(uintptr_t)p, n);
+    return rc < 0 ? rc : (ssize_t)n;
+}
+
+static void
+u_tunnel(uint64_t idx, void *arg)
+{
+    (void)arg;
+    const int k = (int)(idx % 6), inner = (idx / 6) & 1 ? LENP_VARIABLE : LENP_OCTET, entry = (int)(idx / 12) % 4;
+    static const char *en[] = { "flenp_memory_to_sink", "flenp_buffer_to_sink", "flenp_buffer_to_sink_n", "flenp_chunks_to_sink" };
+    static const size_t lens[] = { 1, 2, 5, 40, 127, 128, 200, 201, 255, 300 };
+    uint64_t n = 0;
+    for (size_t li = 0; li < sizeof lens / sizeof lens[0]; li++) {
+        const size_t len = lens[li];
+        if ((uint64_t)len > kmax[k])
+            continue;
+        vh_arena_reset();
+        unsigned char payload[300], expect[320];
+        fill(payload, len, (unsigned)(len + (size_t)k));
+        size_t en_n = ref_prefix(k, len, expect);
+        memcpy(expect + en_n, payload, len);
+        en_n += len;
+        Sink lower, tun;
+        struct csink cs;
+        mk_sink(&lower, &cs, (int)(li % 3));
+        struct tunnel t = { &lower, inner, 0 };
+        chunk_sink_init(&tun, tunnel_chunk, &t);
+        unsigned char *mem = vh_arena_copy(payload, len);
+        ssize_t rc;
+        VH_CASE4(idx, len, inner, entry);
+        if (entry == 0) {
+            rc = LP(memory_to_sink, k, &tun, mem, len);
+        } else if (entry == 1 || entry == 2) {
+            ByteBuffer b;
+            byte_buffer_use(&b, mem, len);
+            rc = entry == 1 ? LP(buffer_to_sink, k, &tun, &b) : LP(buffer_to_sink_n, k, &tun, &b, len);
+        } else {
+            ByteBuffer ch[3];
+            size_t a = len / 3, b2 = len / 2;
+            byte_buffer_use(&ch[0], mem, a);
+            byte_buffer_use(&ch[1], mem + a, b2 - a);
+            byte_buffer_use(&ch[2], mem + b2, len - b2);
+            ByteChunks bc = { .chunks = 3, .active = 0, .chunk = ch };
+            rc = LP(chunks_to_sink, k, &tun, &bc);
+        }
+        char key[96], ctx[200];
+        snprintf(key, sizeof key, "workload=tunnel entry=%s kind=%s inner=%s", en[entry], kname[k], kname[inner == LENP_VARIABLE ? 0 : 1]);
+        /* unwrap the lower stream */
+        unsigned char got[700];
+        size_t gn = 0, pos = 0;
+        int broken = 0;
+        while (pos < cs.n && !broken) {
+            uint64_t fl = 0;
+            if (inner == LENP_OCTET) {
+                fl = cs.buf[pos++];
+            } else {
+                int sh = 0;
+                for (;;) {
+                    if (pos >= cs.n || sh > 56) {
+                        broken = 1;
+                        break;
+                    }
+                    unsigned char c = cs.buf[pos++];
+                    fl |= (uint64_t)(c & 0x7f) << sh;
+                    sh += 7;
+                    if (!(c & 0x80))
+                        break;
+                }
+            }
+            if (broken || fl > cs.n - pos || gn + fl > sizeof got) {
+                broken = 1;
+                break;
+            }
+            memcpy(got + gn, cs.buf + pos, (size_t)fl);
+            gn += (size_t)fl;
+            pos += (size_t)fl;
+        }
+        snprintf(ctx, sizeof ctx, "len=%zu: rc=%zd, %u driver calls, lower stream %zu octets", len, rc, t.calls, cs.n);
+        if (rc != (ssize_t)en_n)
+            vh_fail("tunnel-result", key, "%s: expected %zu", ctx, en_n);
+        if (broken || gn != en_n || memcmp(got, expect, en_n) != 0) {
+            size_t d = 0;
+            while (d < gn && d < en_n && got[d] == expect[d])
+                d++;
+            vh_fail("tunnel-content", key, "%s: unwrapped %zu octets, expected %zu; first difference at %zu: got %s expected %s", ctx, gn,
+                    en_n, d, vh_hex(got + d, gn - d > 8 ? 8 : gn - d), vh_hex(expect + d, en_n - d > 8 ? 8 : en_n - d));
+        }
+        n++;
+        vh_sig(0x13600000ull ^ (idx << 16) ^ len);
+    }
+    VH_COUNT("encoder writing into a sink that frames what it receives (nested encoder calls)");
+    *vh_ncases += n;
+    if (lp_wrapped) {
+        VH_COUNTN("call through a lenp_* wrapper", lp_wrapped);
+        lp_wrapped = 0;
+    }
+}
+
 /* all fragmentations of short streams */
 static void
 u_frag(uint64_t idx, void *arg)
@@ -727,6 +842,9 @@ harness_run(void)
         vh_unit("dec", i, u_dec, NULL);
     for (uint64_t i = 0; i < 18; i++)
         vh_unit("frag", i, u_frag, NULL);
+    for (uint64_t i = 0; i < 48; i++)
+        vh_unit("tunnel", i, u_tunnel, NULL);
+    vh_require("encoder writing into a sink that frames what it receives (nested encoder calls)");
     vh_require("call through a lenp_* wrapper");
     vh_require("decoder: source exposing a transfer window");
     static const char *req[] = { "encoder: frame emitted to sink", "encoder: prefix object filled",
